@@ -720,6 +720,28 @@ func unmodifiedParamString(r *core.Run, v ssa.Value, d int) bool {
 		if ia, isIA := x.X.(*ssa.IndexAddr); isIA {
 			return unmodifiedParamString(r, ia.X, d+1)
 		}
+		if fa, isFA := x.X.(*ssa.FieldAddr); isFA {
+			// a field of a record built in this operation (`obj := &T{Name: key, …}` … `obj.Name`): every
+			// store into that field within the enclosing method and its closures stores the parameter
+			top := func(f *ssa.Function) *ssa.Function {
+				for f.Parent() != nil {
+					f = f.Parent()
+				}
+				return f
+			}
+			here := top(x.Parent())
+			n, ok := 0, true
+			for _, st := range r.P.FieldStores(r.P.FieldName(fa)) {
+				if top(st.Parent()) != here {
+					continue
+				}
+				n++
+				if !unmodifiedParamString(r, st.Val, d+1) {
+					ok = false
+				}
+			}
+			return ok && n > 0
+		}
 		return unmodifiedParamString(r, x.X, d+1)
 	case *ssa.Index:
 		return unmodifiedParamString(r, x.X, d+1)
@@ -1163,42 +1185,50 @@ func rule1013(r *core.Run) {
 	}
 	// getUnlocked
 	if gu := mustFunc(r, "gofakes3.(*uploader).getUnlocked"); gu != nil {
-		bp, op := paramNamed(gu, "bucket"), paramNamed(gu, "object")
-		var bt, ot []*ssa.BinOp
-		core.Instrs(gu, func(in ssa.Instruction) {
-			b, ok := in.(*ssa.BinOp)
-			if !ok || (b.Op != token.EQL && b.Op != token.NEQ) {
-				return
-			}
-			xs := r.P.SliceOfMany([]ssa.Value{b.X, b.Y}, core.SliceOpts{Depth: -1})
-			if bp != nil && xs.HasValue(bp) && xs.Has("field:gofakes3.multipartUpload.Bucket") {
-				bt = append(bt, b)
-			}
-			if op != nil && xs.HasValue(op) && xs.Has("field:gofakes3.multipartUpload.Object") {
-				ot = append(ot, b)
-			}
-		})
-		okAddr := len(ot) > 0
-		for _, ret := range core.Returns(gu) {
-			ev := returnedErrors(gu)[ret]
-			if ev == nil || !definitelyNil(r, core.BlockLocalLoad(ev)) {
-				continue
-			}
-			// assuming the object differs, success must be unreachable; same for the bucket
-			for _, tests := range [][]*ssa.BinOp{ot, bt} {
-				if len(tests) == 0 {
-					continue
-				}
-				assume := map[ssa.Value]bool{}
-				for _, t := range tests {
-					assume[t] = t.Op == token.NEQ
-				}
-				if core.ReachableFromEntryAssuming(ret, assume) {
-					okAddr = false
-				}
-			}
-		}
+		okAddr := uploadAddressedExactly(r, gu)
 		r.Check(okAddr, "R10.13", key(fname(r, gu), "upload handed out only to its own bucket and key"), r.P.Pos(gu.Pos()), "success unreachable when Object (or Bucket) differs",
 			"getUnlocked can succeed for an upload whose object (or bucket) differs from the addressed one: with another key's upload id a part, abort or complete lands on that other key's upload")
 	}
+}
+
+// uploadAddressedExactly: in getUnlocked the upload's Object (and Bucket, when it
+// is compared at all) is compared with the addressed one, and assuming such a
+// comparison says "differs" no successful return is reachable — whatever the
+// polarity and shape of the test.
+func uploadAddressedExactly(r *core.Run, gu *ssa.Function) bool {
+	bp, op := paramNamed(gu, "bucket"), paramNamed(gu, "object")
+	var bt, ot []*ssa.BinOp
+	core.Instrs(gu, func(in ssa.Instruction) {
+		b, ok := in.(*ssa.BinOp)
+		if !ok || (b.Op != token.EQL && b.Op != token.NEQ) {
+			return
+		}
+		xs := r.P.SliceOfMany([]ssa.Value{b.X, b.Y}, core.SliceOpts{Depth: -1})
+		if bp != nil && xs.HasValue(bp) && xs.Has("field:gofakes3.multipartUpload.Bucket") {
+			bt = append(bt, b)
+		}
+		if op != nil && xs.HasValue(op) && xs.Has("field:gofakes3.multipartUpload.Object") {
+			ot = append(ot, b)
+		}
+	})
+	okAddr := len(ot) > 0
+	for _, ret := range core.Returns(gu) {
+		ev := returnedErrors(gu)[ret]
+		if ev == nil || !definitelyNil(r, core.BlockLocalLoad(ev)) {
+			continue
+		}
+		for _, tests := range [][]*ssa.BinOp{ot, bt} {
+			if len(tests) == 0 {
+				continue
+			}
+			assume := map[ssa.Value]bool{}
+			for _, t := range tests {
+				assume[t] = t.Op == token.NEQ
+			}
+			if core.ReachableFromEntryAssuming(ret, assume) {
+				okAddr = false
+			}
+		}
+	}
+	return okAddr
 }
